@@ -426,7 +426,7 @@ pub fn replay(part: &str, case: serde_json::Value) -> Option<CaseResult> {
 pub fn meta() -> EvidenceMeta {
     EvidenceMeta {
         level: "exploration",
-        rule: "cases = pre-existing content (none / random bytes / earlier records, 0-1100 bytes) x append or truncate mode x encoder (pattern {m} or a multi-chunk harness encoder writing each record in 1-N write calls crossing the 1 KiB buffer) x 0-8 single-threaded appends (payload 0-3 KiB, sizes around 1023/1024/1025/2048/3073) checked through a fresh file handle after every call x an optional concurrent phase of 2-8 threads x 1-30 records with generated start stagger, during which designated records park INSIDE the appender's critical section (between two chunks) until another thread announces it is about to append, while a reader thread samples the file and checks that every record a writer has finished is visible, x appends after the phase; oracle: file == pre-existing (append) or empty (truncate, checked right after build) ++ concatenation of all acknowledged records; after joining: the tail parses into whole uncorrupted records, multiset equals the acknowledged records, per-thread order kept. non-trivial = a record > 1 KiB and (a record parked inside the critical section, or non-empty pre-existing content in append mode)".into(),
+        rule: "cases = pre-existing content (none / random bytes / earlier records, 0-1100 bytes) x append or truncate mode x encoder (pattern {m} or a multi-chunk harness encoder writing each record in 1-N write calls crossing the 1 KiB buffer) x 0-8 single-threaded appends (payload 0-3 KiB, sizes around 1023/1024/1025/2048/3073) checked through a fresh file handle after every call x an optional concurrent phase of 2-8 threads x 1-30 records with generated start stagger, during which designated records park INSIDE the appender's critical section (between two chunks) until another thread announces it is about to append, while a reader thread samples the file and checks that every record a writer has finished is visible, x appends after the phase; oracle: file == pre-existing (append) or empty (truncate, checked right after build) ++ concatenation of all acknowledged records; after joining: the tail parses into whole uncorrupted records, multiset equals the acknowledged records, per-thread order kept. Optional events before a single append: an append that unwinds (panicking Display argument), an append whose argument logs through another file appender (both records must land), another file appender failing in the middle of a record (nothing of it may appear here); record sizes include the neighbourhood of 8/16/64 KiB. non-trivial = a record > 1 KiB and (a record parked inside the critical section, or non-empty pre-existing content in append mode)".into(),
         assumptions: vec!["OS scheduler not controlled: interleavings are amplified (parking inside the critical section, stagger, volume), a failing case replays with the same pressure but not the same OS interleaving".into()],
         mutants_caught: vec![],
     }
